@@ -222,22 +222,51 @@ def op_pred(case):
 # ----------------------------------------------------------------------------------------------
 # (8) the real driver
 # ----------------------------------------------------------------------------------------------
-def run_driver(P, folder, constfile, tEnd, saveStep, schedule=(), eager=False, key="C05:driver"):
-    """fullSimulation.main() on a simulated world; cwd must already be a scratch directory."""
+class VirtualClock:
+    """Stands in for the `time` module inside fullSimulation.main(): the harness owns the clock.  Rank r reads
+    1000 + k * tick * (1 + skew * r) at its k-th call, so the ranks' clocks run at different speeds (as the clocks
+    of different nodes and differently loaded processes do) but every run is a pure function of the case."""
+
+    def __init__(self, tick, skew):
+        import time as _t
+        self._real, self.tick, self.skew, self.calls = _t, float(tick), float(skew), {}
+
+    def time(self):
+        from ..simmpi import core
+        try:
+            r = int(core.COMM_WORLD.Get_rank())
+        except Exception:  # noqa  (not a rank thread: the real clock)
+            return self._real.time()
+        k = self.calls.get(r, 0)
+        self.calls[r] = k + 1
+        return 1000.0 + k * self.tick * (1.0 + self.skew * r)
+
+    def __getattr__(self, name):
+        return getattr(self._real, name)
+
+
+def run_driver(P, folder, constfile, tEnd, saveStep, schedule=(), eager=False, key="C05:driver", tMax=1000000, clock=None):
+    """fullSimulation.main() on a simulated world; cwd must already be a scratch directory.
+    clock = (tick, skew): run with a VirtualClock and the wall-clock limit tMax (seconds of that clock)."""
     import fullSimulation
 
     def fn(ctx):
         return fullSimulation.main()
-    argv = ["fullSimulation.py", str(int(tEnd)), "1000000", "-f", folder, "-s", str(int(saveStep))]
+    argv = ["fullSimulation.py", str(int(tEnd)), str(int(tMax)), "-f", folder, "-s", str(int(saveStep))]
     if constfile:
         argv += ["-c", constfile]
     old = sys.argv
     sys.argv = argv
+    # main() does `import time` locally: what it gets is sys.modules['time']
+    real_time = sys.modules["time"]
+    if clock is not None:
+        sys.modules["time"] = VirtualClock(*clock)
     try:
         with sim.quiet():
             run_world(P, fn, (), schedule=schedule, eager=eager, key=key)
     finally:
         sys.argv = old
+        sys.modules["time"] = real_time
 
 
 def read_h5(path):
